@@ -262,7 +262,10 @@ def gen_builtin(rng, nmax):
     return {"n": n, "p": p, "m": m, "M": M, "X": X, "det": det,
             "saving": rng.choice(["l2saving", "l2cost0", "gaussvar"]),
             "cfam": rng.choice(FAMS), "pfam": rng.choice(["sparse", "dense", "sparse"]),
-            "cscale": rng.choice([0.0, 0.1, 0.3, 0.5, 1.0]), "pscale": rng.choice([0.0, 0.1, 0.3, 0.5, 1.0])}
+            "cscale": rng.choice([0.0, 0.1, 0.3, 0.5, 1.0]), "pscale": rng.choice([0.0, 0.1, 0.3, 0.5, 1.0]),
+            # what the fitted detector was used for before: nothing, or predict / transform_scores on OTHER data with the same index
+            "prior": rng.choice([None, None, "predict", "scores"]), "via": rng.choice(["attr", "api", "api"]),
+            "container": rng.choice(["ndarray", "frame"])}
 
 
 def _mk_saving(kind):
@@ -303,7 +306,14 @@ def impl_builtin(case):
             ca, cb = capa_penalty_factory(case["cfam"])(n, p, k, scale=case["cscale"])
             pa, pb = capa_penalty_factory(case["pfam"])(n, p, psav.get_param_size(1), scale=case["pscale"])
             ca, cb, pa, pb = float(ca), [float(b) for b in cb], float(pa), [float(b) for b in pb]
-        y = det.predict(X)
+        import pandas as pd
+
+        wrap = (lambda a: pd.DataFrame(a)) if case.get("container") == "frame" else (lambda a: a)
+        if case.get("prior"):
+            X0 = wrap(X[::-1] * 2.0 + 1.0)
+            det.predict(X0) if case["prior"] == "predict" else det.transform_scores(X0)
+        api_scores = [float(v) for v in np.asarray(det.transform_scores(wrap(X))).reshape(-1)] if case.get("via") == "api" else None
+        y = det.predict(wrap(X))
         an = [(int(i.left), int(i.right)) for i in y["ilocs"]]
         cuts = np.array([(s, e) for s in range(n) for e in range(s + 1, n + 1)])
         ms = sav.min_size
@@ -312,7 +322,7 @@ def impl_builtin(case):
             if e - s >= ms:
                 vals[f"{s},{e}"] = [float(v) for v in sav.evaluate(np.array([[s, e]]))[0]]
         pvals = [[float(v) for v in psav.evaluate(np.array([[t, t + 1]]))[0]] for t in range(n)]
-        return {"outcome": "ok", "opt": [float(v) for v in det.scores.values], "anoms": an,
+        return {"outcome": "ok", "opt": api_scores if api_scores is not None else [float(v) for v in np.asarray(det.scores).reshape(-1)], "anoms": an,
                 "ca": ca, "cb": cb, "pa": pa, "pb": pb, "sav": vals, "psav": pvals, "min_size": int(ms)}
     except Exception as ex:
         return {"outcome": "other:" + type(ex).__name__, "msg": str(ex)[:200]}
